@@ -30,6 +30,11 @@ type Transpiler struct {
 func (t *Transpiler) rewriteMinMaxTime() {
 	if t.Start != nil && t.End != nil {
 		t.minT, t.maxT = timestamp.FromTime(*t.Start), timestamp.FromTime(*t.End)
+		if step := durationMilliseconds(t.Step); step > 0 && t.maxT > t.minT {
+			// The last evaluation timestamp of a range query is the last step that is not after End
+			// (findStartEndTime does the same): samples after it belong to no step and must not be scanned.
+			t.maxT = t.minT + (t.maxT-t.minT)/step*step
+		}
 	} else if t.Evaluation != nil {
 		t.minT, t.maxT = timestamp.FromTime(*t.Evaluation), timestamp.FromTime(*t.Evaluation)
 	}
